@@ -1469,9 +1469,15 @@ def selftest(ctx: Ctx) -> bool:
               query=[], body=list(b"--x--"), wantCtype=cps("multipart/form-data"), ctype=cps("Multipart/Form-Data; boundary=x"))
     mp["def"] = nodef
     obs += [mp, dict(mp, ctype=cps("application/x-www-form-urlencoded")), dict(mp, ctype=[])]
+    # history: a plain send of a case (q=a, c=1, X-H: h) must not carry an earlier call's `limit`, and must leave the case as it was
+    hv = {"k": "prim", "items": [{"t": "str", "s": cps("a"), "n": 0}], "keys": []}
+    hs = dict(good, kind="hist", val=hv, tmpl=cps("/items"), path=cps("/api/items"), query=cps("q=a"), step="plain", envloc="hist",
+              hnames=good["hnames"] + ["cookie", "x-h"], cpresent=True, cookie=cps("c=1"), hx=[{"n": "x-h", "v": cps("h")}], mut=[])
+    hs["def"] = nodef
+    obs += [hs, dict(hs, query=cps("q=a&limit=10")), dict(hs, mut=["cookies"]), dict(hs, cookie=cps("c=1; d=2"))]
     verdicts, _, _ = judge(ctx, obs, "selftest.json")
     got = [[a for a in ASPECTS if v[a].startswith("F")] for v in verdicts]
-    want = [[], ["param"], ["param"], ["url"], ["hdrs"], ["param"], ["method"], [], ["ctype"], ["ctype"]]
+    want = [[], ["param"], ["param"], ["url"], ["hdrs"], ["param"], ["method"], [], ["ctype"], ["ctype"], [], ["hist"], ["hist"], ["hist"]]
     if got != want:
         print("selftest: judge verdicts", got, "expected", want)
         return False
